@@ -23,6 +23,11 @@ void h_run(Case &c) {
   OpOpts oo; oo.allow_cpuless_nodeset_group = include_known("F-C02-d");
   size_t npre = c.ops.empty() ? 0 : d.range(0, (int)c.ops.size());
   UDMap ud; ud.tag_all(t); hwloc_topology_set_userdata(t, (void *)0x777);
+  // one case in four starts with three or four distances structures (the list a duplicate has to rebuild link by link)
+  if (d.chance(1, 4)) { static const hwloc_obj_type_t tys[] = {HWLOC_OBJ_PU, HWLOC_OBJ_NUMANODE, HWLOC_OBJ_CORE, HWLOC_OBJ_PACKAGE, HWLOC_OBJ_PU}; int want = d.range(3, 4), made = 0;
+    for (int k = 0; k < 5 && made < want; k++) { hwloc_obj_type_t ty = tys[(k + d.raw()) % 5]; int n = hwloc_get_nbobjs_by_type(t, ty); if (n < 2) continue; if (n > 4) n = 4; std::vector<hwloc_obj_t> objs; for (int i = 0; i < n; i++) objs.push_back(hwloc_get_obj_by_type(t, ty, i)); std::vector<hwloc_uint64_t> v((size_t)n * n); for (size_t i = 0; i < v.size(); i++) v[i] = 10 + made * 100 + i;
+      hwloc_distances_add_handle_t h = hwloc_distances_add_create(t, strf("pre%d", made).c_str(), HWLOC_DISTANCES_KIND_FROM_USER | HWLOC_DISTANCES_KIND_VALUE_BANDWIDTH, 0); if (h && hwloc_distances_add_values(t, h, (unsigned)n, objs.data(), v.data(), 0) == 0 && hwloc_distances_add_commit(t, h, 0) == 0) made++; }
+    c.descf("\n pre| %d distances structures", made); c.cls("pre:three-or-more-distances"); }
   for (size_t i = 0; i < npre; i++) { OpRes r = apply_op(c, c.ops[i], t, oo); c.desc("\n pre| " + r.desc); ud.tag_all(t); }
   bool rich = false;
   { unsigned nr = 0; hwloc_distances_get(t, &nr, NULL, 0, 0); if (nr) { rich = true; c.cls("pre:distances"); } }
